@@ -159,17 +159,13 @@ func randPool(r *vf.Rng) []string {
 	default:
 		n = r.Intn(40)
 	}
-	junk := []string{"-42", "0", "1", "-1", pow2(300).String(), new(big.Int).Neg(pow2(255)).String(), pow2(256).String(), "77"}
+	junk := []string{"-42", "0", "1", "-1", "77", "-42", "255", "-9", "65536", "-300", "3", "1152921504606846975", "-1152921504606846975"}
 	out := make([]string, n)
 	for i := range out {
-		if r.Chance(70) {
+		if r.Chance(94) {
 			out[i] = junk[r.Intn(len(junk))]
 		} else {
-			v := new(big.Int).SetBytes(r.Bytes(1 + r.Intn(40)))
-			if r.Bool() {
-				v.Neg(v)
-			}
-			out[i] = v.String()
+			out[i] = bigSeeds[r.Intn(len(bigSeeds))].String()
 		}
 	}
 	return out
@@ -479,22 +475,105 @@ func zlist(xs []string) string {
 	}
 	return "[" + strings.Join(ys, ";") + "]%Z"
 }
-func nlistInts(xs []int) string {
-	ys := make([]string, len(xs))
-	for i, x := range xs {
-		ys[i] = fmt.Sprint(x)
+
+// digests shared with Model.v (dmix, dlist, run_digest)
+var dMask = new(big.Int).Sub(pow2(124), big.NewInt(1))
+
+func dmix(acc, v *big.Int) *big.Int {
+	a := new(big.Int).Mul(acc, big.NewInt(33))
+	a.Add(a, new(big.Int).And(v, dMask)) // two's complement semantics, as Z.land
+	hi := new(big.Int).Rsh(v, 124)       // floor, as Z.shiftr
+	hi.And(hi, dMask)
+	a.Add(a, hi.Mul(hi, big.NewInt(7)))
+	a.Add(a, big.NewInt(1))
+	return a.And(a, dMask)
+}
+func dlist(acc *big.Int, l []*big.Int) *big.Int {
+	acc = dmix(acc, big.NewInt(int64(len(l))))
+	for _, v := range l {
+		acc = dmix(acc, v)
 	}
-	return "[" + strings.Join(ys, ";") + "]%N"
+	return acc
+}
+func bigs(xs []string) []*big.Int {
+	out := make([]*big.Int, len(xs))
+	for i, x := range xs {
+		out[i], _ = new(big.Int).SetString(x, 10)
+	}
+	return out
+}
+func runDigest(o Obs) *big.Int {
+	d := dlist(big.NewInt(7), bigs(o.Tops))
+	if o.Status == StOK {
+		d = dlist(d, bigs(o.Stack))
+		m := make([]*big.Int, len(o.Mem))
+		for i, b := range o.Mem {
+			m[i] = big.NewInt(int64(b))
+		}
+		d = dlist(d, m)
+	}
+	return d
+}
+func poolDigest(o Obs) *big.Int {
+	d := dlist(big.NewInt(11), bigs(o.PoolOut))
+	a := make([]*big.Int, len(o.PoolAlias))
+	for i, x := range o.PoolAlias {
+		a[i] = big.NewInt(int64(x))
+	}
+	return dlist(d, a)
+}
+
+// packCode: 7 bytes per 63-bit primitive integer, big-endian, zero padded
+func packCode(code []byte) string {
+	var xs []string
+	for i := 0; i < len(code); i += 7 {
+		var v uint64
+		for j := 0; j < 7; j++ {
+			v <<= 8
+			if i+j < len(code) {
+				v |= uint64(code[i+j])
+			}
+		}
+		xs = append(xs, fmt.Sprint(v))
+	}
+	return "[" + strings.Join(xs, ";") + "]"
+}
+
+// big pool seeds are referred to by index (see seed_of in Model.v)
+var bigSeeds = []*big.Int{pow2(300), new(big.Int).Neg(pow2(255)), pow2(256), new(big.Int).Neg(pow2(300)),
+	new(big.Int).Add(pow2(256), big.NewInt(1)), pow2(255), new(big.Int).Sub(pow2(256), big.NewInt(1)), pow2(64)}
+
+func seedCoq(s string) string {
+	v, _ := new(big.Int).SetString(s, 10)
+	for i, b := range bigSeeds {
+		if b.Cmp(v) == 0 {
+			return fmt.Sprint(i)
+		}
+	}
+	lim := pow2(60)
+	if v.CmpAbs(lim) >= 0 {
+		panic("pool seed neither small nor in bigSeeds: " + s)
+	}
+	return new(big.Int).Add(v, pow2(61)).String()
+}
+
+func split62(d *big.Int) (string, string) {
+	m := new(big.Int).Sub(pow2(62), big.NewInt(1))
+	lo := new(big.Int).And(d, m)
+	hi := new(big.Int).Rsh(d, 62)
+	return lo.String(), hi.String()
 }
 
 func caseCoq(in Input, o Obs) string {
-	stack, mem := o.Stack, o.Mem
-	if o.Status != StOK {
-		stack, mem = nil, nil
+	code := in.code()
+	seeds := make([]string, len(in.Pool))
+	for i, s := range in.Pool {
+		seeds[i] = seedCoq(s)
 	}
-	return fmt.Sprintf("mkCase %s %d%%N %s %d%%N %d%%N %s %s %s %s %s",
-		vf.ByteList(in.code()), in.Gas, zlist(in.Pool), o.Status, o.GasLeft,
-		zlist(o.Tops), zlist(stack), vf.ByteList(mem), zlist(o.PoolOut), nlistInts(o.PoolAlias))
+	rl, rh := split62(runDigest(o))
+	pl, ph := split62(poolDigest(o))
+	return fmt.Sprintf("mkCaseP bigs %s %d %d [%s] %d %d %s %s %s %s",
+		packCode(code), len(code), in.Gas, strings.Join(seeds, ";"), o.Status, o.GasLeft, rl, rh, pl, ph)
 }
 
 func loadCorpus(dir string) []Input {
@@ -578,7 +657,12 @@ func gen(seed uint64, n int, outDir, corpusDir string) {
 		}
 	}
 	var sb strings.Builder
-	sb.WriteString("From VF.C15 Require Import Model.\nFrom VF.gen Require Import C15Table C15Ops.\n")
+	sb.WriteString("From Coq Require Import Uint63.\nFrom VF.C15 Require Import Model.\nFrom VF.gen Require Import C15Table C15Ops.\n")
+	var bs []string
+	for _, b := range bigSeeds {
+		bs = append(bs, vf.BigZ(b))
+	}
+	sb.WriteString("Definition bigs : list Z := " + vf.List(bs) + ".\nLocal Open Scope uint63_scope.\n")
 	sb.WriteString("Definition cases : list case := [\n")
 	for i, c := range cases {
 		if i > 0 {
